@@ -41,6 +41,16 @@ func ReadBasicTypeLE[T BasicType](buf *bytes.Buffer) (T, error) {
 	return v, err
 }
 
+// boundedCap limits the capacity reserved for a list whose element count was read
+// from the wire to the number of bytes actually left in the buffer, so that a
+// hostile count cannot make a reader allocate memory for data that is not there.
+func boundedCap(count int, buf *bytes.Buffer) int {
+	if count < 0 || count > buf.Len() {
+		return buf.Len()
+	}
+	return count
+}
+
 func WriteBasicTypeList[T constraints.Unsigned, K BasicType](buf *bytes.Buffer, values []K) error {
 	if err := binary.Write(buf, binary.BigEndian, T(len(values))); err != nil {
 		return err
@@ -73,7 +83,7 @@ func ReadBasicTypeList[T constraints.Unsigned, K BasicType](buf *bytes.Buffer) (
 	}
 	count := int(t)
 
-	result := make([]K, 0, count)
+	result := make([]K, 0, boundedCap(count, buf))
 	var err error
 	for i := 0; i < count; i++ {
 		v, e := ReadBasicType[K](buf)
@@ -92,7 +102,7 @@ func ReadBasicTypeListLE[T constraints.Unsigned, K BasicType](buf *bytes.Buffer)
 	}
 	count := int(t)
 
-	result := make([]K, 0, count)
+	result := make([]K, 0, boundedCap(count, buf))
 	var err error
 	for i := 0; i < count; i++ {
 		v, e := ReadBasicTypeLE[K](buf)
@@ -134,6 +144,9 @@ func ReadString[T constraints.Unsigned](buf *bytes.Buffer) (string, error) {
 		return "", err
 	}
 	length := int(t)
+	if length < 0 || length > buf.Len() {
+		return "", io.ErrUnexpectedEOF
+	}
 
 	strBytes := make([]byte, length)
 	_, err := io.ReadFull(buf, strBytes)
@@ -146,6 +159,9 @@ func ReadStringLE[T constraints.Unsigned](buf *bytes.Buffer) (string, error) {
 		return "", err
 	}
 	length := int(t)
+	if length < 0 || length > buf.Len() {
+		return "", io.ErrUnexpectedEOF
+	}
 
 	strBytes := make([]byte, length)
 	_, err := io.ReadFull(buf, strBytes)
@@ -247,7 +263,7 @@ func ReadFixedStringListTrimPadding[T constraints.Unsigned](buf *bytes.Buffer, f
 	}
 	count := int(t)
 
-	result := make([]string, 0, count)
+	result := make([]string, 0, boundedCap(count, buf))
 	var err error
 	for i := 0; i < count; i++ {
 		str, e := ReadFixedStringTrimPadding(buf, fixedLen, padChar, padLeft)
@@ -270,7 +286,7 @@ func ReadFixedStringListTrimPaddingLE[T constraints.Unsigned](buf *bytes.Buffer,
 	}
 	count := int(t)
 
-	result := make([]string, 0, count)
+	result := make([]string, 0, boundedCap(count, buf))
 	var err error
 	for i := 0; i < count; i++ {
 		str, e := ReadFixedStringTrimPadding(buf, fixedLen, padChar, padLeft)
@@ -327,13 +343,16 @@ func ReadStringListLE[T constraints.Unsigned, K constraints.Unsigned](buf *bytes
 	}
 	count := int(t)
 
-	result := make([]string, 0, count)
+	result := make([]string, 0, boundedCap(count, buf))
 	for i := 0; i < count; i++ {
 		var k K
 		if err := binary.Read(buf, binary.LittleEndian, &k); err != nil {
 			return nil, err
 		}
 		length := int(k)
+		if length < 0 || length > buf.Len() {
+			return nil, errors.New("incomplete string bytes")
+		}
 
 		strBytes := make([]byte, length)
 		n, err := buf.Read(strBytes)
@@ -353,13 +372,16 @@ func ReadStringList[T constraints.Unsigned, K constraints.Unsigned](buf *bytes.B
 	}
 	count := int(t)
 
-	result := make([]string, 0, count)
+	result := make([]string, 0, boundedCap(count, buf))
 	for i := 0; i < count; i++ {
 		var k K
 		if err := binary.Read(buf, binary.BigEndian, &k); err != nil {
 			return nil, err
 		}
 		length := int(k)
+		if length < 0 || length > buf.Len() {
+			return nil, errors.New("incomplete string bytes")
+		}
 
 		strBytes := make([]byte, length)
 		n, err := buf.Read(strBytes)
@@ -395,7 +417,7 @@ func ReadObjectList[T constraints.Unsigned, K BinaryCodec](buf *bytes.Buffer, ne
 	}
 	count := int(t)
 
-	result := make([]K, 0, count)
+	result := make([]K, 0, boundedCap(count, buf))
 	for i := 0; i < count; i++ {
 		k := newFn()
 		if e := k.Decode(buf); e != nil {
@@ -429,7 +451,7 @@ func ReadObjectListLE[T constraints.Unsigned, K BinaryCodec](buf *bytes.Buffer, 
 	}
 	count := int(t)
 
-	result := make([]K, 0, count)
+	result := make([]K, 0, boundedCap(count, buf))
 	for i := 0; i < count; i++ {
 		k := newFn()
 		if e := k.Decode(buf); e != nil {
